@@ -6,8 +6,11 @@ package sim
 // keys. The history / point-in-time sentences of C17 are read SQL and metadata-history triggers: not decided.
 
 import (
+	"encoding/json"
 	"fmt"
 	"sort"
+	"strings"
+	gotime "time"
 
 	ledger "github.com/formancehq/ledger/internal"
 )
@@ -268,4 +271,136 @@ func revMetas(rs []*MetaRev) []map[string]string {
 		out = append(out, m.Metadata)
 	}
 	return out
+}
+
+// checkMetadataAtPIT (C17, second and third sentence, by value): a read of accounts or transactions at a point in
+// time t, answered through the real handlers and executed by the interpreter over the history rows the triggers
+// wrote, reports for every entity it lists the metadata as it was at t when the ledger keeps the history - the
+// state left by the last change dated at or before t (creation: the transaction's timestamp / the account's
+// insertion date; a change: its updated_at), nothing before the first - and the current metadata when it does not.
+// The reference is built from the committed row versions, not from the history table.
+func checkMetadataAtPIT(r *runner) []Violation {
+	if !r.sc.Knobs.RealSQL {
+		return nil
+	}
+	var vs []Violation
+	prop := r.sc.Property
+	type ver struct {
+		date gotime.Time
+		meta map[string]string
+	}
+	type ek struct{ table, ledger, id string }
+	versions := map[ek][]ver{}
+	for _, rec := range r.w.db.CommitsSince(0) {
+		for _, wr := range rec.Writes {
+			switch row := wr.After.(type) {
+			case *AcctRow:
+				k := ek{"accounts", wr.Key.Ledger, row.Address}
+				d := row.UpdatedAt.Time
+				if wr.Before == nil {
+					d = row.InsertionDate.Time
+				}
+				versions[k] = append(versions[k], ver{d, row.Metadata})
+			case *ledger.Transaction:
+				if wr.Key.Table != "tx" || row.ID == nil {
+					continue
+				}
+				k := ek{"transactions", wr.Key.Ledger, fmt.Sprint(*row.ID)}
+				d := row.UpdatedAt.Time
+				if wr.Before == nil {
+					d = row.Timestamp.Time
+				}
+				versions[k] = append(versions[k], ver{d, map[string]string(row.Metadata)})
+			}
+		}
+	}
+	feature := map[string]string{"accounts": "ACCOUNT_METADATA_HISTORY", "transactions": "TRANSACTION_METADATA_HISTORY"}
+	for _, or := range r.results {
+		if or.Op.Kind != KRaw || or.Op.Raw == nil || or.Op.Raw.Method != "GET" || or.Out.Class != "ok" || len(or.Faults) > 0 {
+			continue
+		}
+		path, query, _ := strings.Cut(or.Op.Raw.Path, "?")
+		parts := strings.Split(strings.Trim(path, "/"), "/")
+		if len(parts) < 3 || parts[0] != "v2" || (parts[2] != "accounts" && parts[2] != "transactions") {
+			continue
+		}
+		var pit gotime.Time
+		for _, kv := range strings.Split(query, "&") {
+			if v, ok := strings.CutPrefix(kv, "pit="); ok {
+				pit, _ = gotime.Parse(gotime.RFC3339Nano, v)
+			}
+		}
+		if pit.IsZero() {
+			continue
+		}
+		r.w.mu.Lock()
+		tabs := r.w.readTables[or.Op.ID]
+		r.w.mu.Unlock()
+		if !tabs[parts[2]] {
+			continue // not answered through the real statements (model fallback)
+		}
+		ledgerName, resource := parts[1], parts[2]
+		type item struct {
+			ID       json.Number       `json:"id"`
+			Address  string            `json:"address"`
+			Metadata map[string]string `json:"metadata"`
+		}
+		var items []item
+		if len(parts) == 4 {
+			var env struct {
+				Data item `json:"data"`
+			}
+			if json.Unmarshal(or.Out.Body, &env) != nil {
+				continue
+			}
+			items = []item{env.Data}
+		} else {
+			var env struct {
+				Cursor struct {
+					Data []item `json:"data"`
+				} `json:"cursor"`
+			}
+			if json.Unmarshal(or.Out.Body, &env) != nil {
+				continue
+			}
+			items = env.Cursor.Data
+		}
+		val := r.featuresOf(ledgerName)[feature[resource]]
+		kept := val == "" || val == "SYNC"
+		for _, it := range items {
+			id := it.Address
+			if resource == "transactions" {
+				id = it.ID.String()
+			}
+			vers := versions[ek{resource, ledgerName, id}]
+			if len(vers) == 0 {
+				continue
+			}
+			want := map[string]string{}
+			if kept {
+				for _, v := range vers {
+					if !v.date.After(pit) {
+						want = v.meta
+					}
+				}
+			} else {
+				want = vers[len(vers)-1].meta
+			}
+			if !sameMeta(it.Metadata, want) {
+				r.w.probe("pit_metadata_read_judged")
+				how := "the metadata at that time"
+				if !kept {
+					how = "the current metadata (no history is kept)"
+				}
+				var hist []string
+				for _, v := range vers {
+					hist = append(hist, fmt.Sprintf("%s:%v", v.date.UTC().Format("2006-01-02T15:04:05.000"), v.meta))
+				}
+				vs = append(vs, Violation{prop, "a-read-at-time-t-returns-the-metadata-as-it-was-at-t", fmt.Sprintf("%s GET %s on ledger %s (%s=%s): %s %s carries %v; %s is %v (its versions: %v)", or.Op.ID, or.Op.Raw.Path, ledgerName, feature[resource], val, resource, id, it.Metadata, how, want, hist)})
+			} else {
+				r.w.probe("pit_metadata_read_matches")
+			}
+		}
+	}
+	return vs
 }
